@@ -73,6 +73,11 @@ def universe():
         ("W->f(shape)", {W: f}),
         ("f*g->h", {f * g: h}),
     ]
+    U.chain = {
+        "f->h": ("h->2g+1", {h: 2 * g + 1}),
+        "f->g": ("g->h*x0", {g: h * x[0]}),
+        "W->Z": ("Z->grad(h)", {Z: ufl.grad(h)}),
+    }
     return U
 
 
@@ -155,6 +160,37 @@ def make_check(U):
                     ok = False
                     break
                 part.count("nontrivial_pairs")
+            # chained use: the result of a replace combined with its own input and replaced again (label-preserving
+            # rebuilds put two Variable nodes with one label and different contents into one expression)
+            if name in U.chain and not obj.ufl_free_indices:
+                name2, mp2 = U.chain[name]
+                part.inc("transitions")
+                try:
+                    total = obj + 3 * res
+                    res2 = replace(total, mp2)
+                except BaseException as e:  # noqa: BLE001
+                    if isinstance(e, (KeyboardInterrupt, SystemExit, MemoryError)):
+                        raise
+                    part.error("chain:" + type(e).__name__)
+                    continue
+                for env in envs:
+                    base = M.Ctx(env)
+                    ov = {k: (lambda c, vv=ufl.as_ufl(v), base=base: M.sem(vv, base if c.side == base.side else M._side_ctx(base, c.side), {})) for k, v in mp2.items()}
+                    try:
+                        v1 = M.sem(total, M.Ctx(env, coef_value_override=ov), {})
+                        v2 = M.sem(res2, M.Ctx(env), {})
+                    except (Ambiguous, Undefined):
+                        part.count("undefined_env")
+                        continue
+                    part.inc("validated")
+                    if not M.values_close(v1, v2, mpf("1e-10")):
+                        part.violation(
+                            f"{PID}:chain:{name}>{name2}:{key}",
+                            f"replace(e + 3*replace(e, {name}), {name2}) differs from the value with the mapped terminals substituted, e = {key}",
+                            dict(wit, mapping2=name2, after=repr(res2)[:800], ufl=M.show(v2), expected=M.show(v1), env=env.describe()),
+                        )
+                        ok = False
+                        break
         return None if ok else "VIOLATION"
 
     return rep_check
